@@ -309,8 +309,11 @@ func (h *FHDR) UnmarshalBinary(uplink bool, data []byte) error {
 	h.FCnt = binary.LittleEndian.Uint32(fCntBytes)
 
 	if len(data) > 7 {
+		// copy the bytes: the decoded frame must not share memory with the input buffer
+		fOpts := make([]byte, len(data[7:]))
+		copy(fOpts, data[7:])
 		h.FOpts = []Payload{
-			&DataPayload{Bytes: data[7:]},
+			&DataPayload{Bytes: fOpts},
 		}
 	}
 
